@@ -45,8 +45,9 @@ manifest = {
     "setup_cmd": "bash ./setup.sh",
     "hooks": {
         "guard": "HVSRPY_VERIF",
-        "enable": "no source hooks: instrumentation is applied from /verif at run time (monkeypatched probes; for CLI "
-                  "worker processes a sitecustomize on PYTHONPATH that is inert unless HVSRPY_VERIF=1)",
+        "enable": "no source hooks: instrumentation is applied from /verif at run time (monkeypatched probes; the CLI is "
+                  "started through hvmon/cli/launcher.py, which wraps cli._process_hvsr only when HVSRPY_VERIF=1 - forked "
+                  "Pool workers inherit the wrapper)",
         "baseline_off_cmd": BASELINE,
         "source_commits": [],
         "add_only": True,
